@@ -454,13 +454,17 @@ def c12_findings(ev, rec, optout_cpu, optout_mem, told_mems):
     if rec['op'] == 'CreateContainer' and ((ev.get('ctr') or {}).get('res') or {}).get('mems'):
         # what the runtime created the container with is what "unchanged" refers to
         told_mems.setdefault(ev['ctr']['id'], fmt_set(parse_set(ev['ctr']['res']['mems'])))
+    if rec['op'] == 'CreateContainer' and ((ev.get('ctr') or {}).get('res') or {}).get('cpus'):
+        told_mems.setdefault(('cpus', ev['ctr']['id']), fmt_set(parse_set(ev['ctr']['res']['cpus'])))
     items = []
     if rep.get('adjust'):
         items.append(('adjustment', rep['adjust']))
     items += [('update', u) for u in (rep.get('updates') or [])] + [('pushed update', u) for u in (rep.get('pushed') or [])]
     for kind, u in items:
         cid = u['id']
-        if cid in optout_cpu and u.get('cpus') is not None:
+        if cid in optout_cpu and u.get('cpus') is not None and told_mems.get(('cpus', cid)) != u['cpus']:
+            # (re-telling the cpuset the runtime already has -- the handler does that for an UpdateContainer with
+            # identical resources -- touches nothing)
             out.append(F('C12', 'cpu-preserved-never-told-cpus', 'cpuset-told-to-cpu-opt-out:' + optout_cpu[cid],
                          '%s (%s) tells CPU-opted-out container %s cpus=%s' % (rec['op'], kind, cid, u['cpus']), seq))
         if cid in optout_mem and u.get('mems') is not None:
@@ -470,6 +474,8 @@ def c12_findings(ev, rec, optout_cpu, optout_mem, told_mems):
                              '%s (%s) tells memory-opted-out container %s mems=%s (had %s)' % (rec['op'], kind, cid, u['mems'], prev), seq))
         if u.get('mems') is not None:
             told_mems[cid] = u['mems']
+        if u.get('cpus') is not None:
+            told_mems[('cpus', cid)] = u['cpus']
     return out
 
 
